@@ -297,6 +297,16 @@ theorem find_one_fq (root : Node) (start pos : Pos) (strict : Bool) (hok : PathO
   simp only [eval_fq root start pos strict hok]
   rfl
 
+/-- **`fq_name()` names its element uniquely**: two addressable positions with the same
+    `fq_name()` are the same position -/
+theorem fqName_injective (root : Node) (p q : Pos) (hp : PathOK root p = true) (hq : PathOK root q = true)
+    (h : fqName root p = fqName root q) : p = q := by
+  have h1 := find_fq root [] p true hp
+  have h2 := find_fq root [] q true hq
+  rw [h, h2] at h1
+  simp only [FindRes.many.injEq, List.cons.injEq, and_true] at h1
+  exact h1.symm
+
 /-- the root's `fq_name()` is `/` -/
 theorem fqName_root (root : Node) : fqName root [] = ['/'] := rfl
 
